@@ -116,3 +116,59 @@ def min_image(traj, s, i, j, p):
     det, G = _inv_spec(Hm, d)
     row = [sv.sub(traj.pos(s, j, c), traj.pos(s, i, c)) for c in range(d)]
     return pbc_spec_row(row, Hm, G, p, d)
+
+
+# ---- opaque variant of the remove_pbc callee contract ---------------------------------------------------
+# For clauses that only need that the minimum image is a FUNCTION of (row, cell, mask) and that the zero row maps to the
+# zero row (lemma `remove_pbc(0)=0`, proved with C02's contract in contracts/C05.py), the result is left uninterpreted:
+# MINIMG<d>_<c>(r_0..r_{d-1}, H_00..H_{d-1,d-1}, p_0..p_{d-1}).  This keeps the cell inverse out of the queries.
+
+
+def _minimg_fn(d, c):
+    R, I = z3.RealSort(), z3.IntSort()
+    return z3.Function(f"MINIMG{d}_{c}", *([R] * d), *([R] * (d * d)), *([I] * d), R)
+
+
+def minimg_row(row, Hm, p, d):
+    args = [sv.zr(x) for x in row] + [sv.zr(Hm[a][b]) for a in range(d) for b in range(d)] + [sv.znum(x) for x in p]
+    return [sv.SV(_minimg_fn(d, c)(*args)) for c in range(d)]
+
+
+def register_minimg_facts(ctx, d):
+    for c in range(d):
+        f = _minimg_fn(d, c)
+        ctx.array_fact(f.name(), lambda *a, f=f: z3.Implies(z3.And(*[a[k] == 0 for k in range(d)]), f(*a) == 0))
+
+
+def remove_pbc_summary_opaque(interp, args, kwargs):
+    from contracts.C02 import _inv_spec
+    from pyvc.lib import _arr
+    RIJ = _arr(args[0], interp)
+    H = _arr(args[1], interp)
+    ppp = _arr(args[2] if len(args) > 2 else kwargs.get("ppp"), interp)
+    d = A.conc_dim(H.shape[0], "cell dimension")
+    if RIJ.ndim != 2:
+        raise sv.EngineError("remove_pbc summary: RIJ must be (n,d) here")
+    A.require_dim_eq(RIJ.shape[1], d, "call:remove_pbc:pre:shape")
+    A.require_dim_eq(ppp.shape[0], d, "call:remove_pbc:pre:ppp-shape")
+    Hm = [[H.get((a, b)) for b in range(d)] for a in range(d)]
+    det, G = _inv_spec(Hm, d)
+    cur().require(sv.cmp("!=", det, 0), "call:remove_pbc:pre:det!=0")
+    p = [ppp.get((k,)) for k in range(d)]
+    for k in range(d):
+        cur().require(sv.or_(sv.cmp("==", p[k], 0), sv.cmp("==", p[k], 1)), "call:remove_pbc:pre:ppp-in-{0,1}")
+    r = RIJ.reader()
+
+    def fn(idx):
+        row = [r((idx[0], c)) for c in range(d)]
+        return A._pick(minimg_row(row, Hm, p, d), idx[1])
+    return A.new_arr((RIJ.shape[0], d), A._memo(fn), "float")
+
+
+PBC_OPAQUE = {"PyMatterSim.utils.pbc.remove_pbc": remove_pbc_summary_opaque}
+
+
+def min_image_opaque(traj, s, i, j, p):
+    d = traj.d
+    row = [sv.sub(traj.pos(s, j, c), traj.pos(s, i, c)) for c in range(d)]
+    return minimg_row(row, traj.Hm(s), p, d)
